@@ -155,6 +155,16 @@ def h_copy(kind, m):
     cp2 = reg.copy(meta={'label': 'other'})
     m.require('copy(meta=...) differs from the original', Not(cp2 == reg))
     m.require('copy(meta=...) keeps every shape parameter', _params_equal(cp2, reg))
+    # ... also when the new value is EMPTY (an explicitly given empty meta / visual is a value like any other)
+    from regions import RegionMeta, RegionVisual
+    cp3 = reg.copy(meta=RegionMeta())
+    m.require('copy(meta=<empty>) has an empty meta', dict(cp3.meta) == {})
+    m.require('copy(meta=<empty>) differs from the original (whose meta is not empty)', Not(cp3 == reg))
+    cp4 = reg.copy(visual=RegionVisual())
+    m.require('copy(visual=<empty>) has an empty visual', dict(cp4.visual) == {})
+    cp3.meta['label'] = 'fresh'
+    m.require('editing the meta of copy(meta=<empty>) touches neither the original nor its components',
+              reg.meta['label'] == 'L' and all(getattr(getattr(cp3, a_, None), 'meta', {}).get('label') != 'fresh' for a_ in ('region1', 'region2')))
 
 
 def _num(v):
